@@ -101,8 +101,6 @@ def kf_for(cell):
                 for n in l:
                     if 2 * (pywt.dwt_coeff_len(n, L, mode) - 1) - n + L > 0:
                         return KF_FWD_EXT
-        if mode == 'periodization' and any(n % 2 for l in lens for n in l):
-            return KF_FWD_ODD
         return None
     if mode in EXT and L > 2:
         return KF_INV_EXT
@@ -460,8 +458,6 @@ def fn_kf(rec):
         Lax = Ls[::-1] if len(sizes) == 2 else Ls           # saved order is (row, col) filters
         if mode in EXT and any(2 * (pywt.dwt_coeff_len(n, L, mode) - 1) - n + L > 0 for n, L in zip(sizes, Lax)):
             return KF_FWD_EXT
-        if mode == 'periodization' and any(n % 2 for n in sizes):
-            return KF_FWD_ODD
     elif mode in EXT and max(Ls) > 2:
         return KF_INV_EXT
     return None
